@@ -27,13 +27,19 @@ class ThreadTaskDoneCallback:
         return task_or_thread
 
     def close(self, interval: float = 0.001) -> None:
-        self._task_callback.close(interval=interval)
-        self._thread_callback.close()
+        # Wait for the registered threads as well when a callback of a task has
+        # raised. The exception is re-raised afterwards.
+        try:
+            self._task_callback.close(interval=interval)
+        finally:
+            self._thread_callback.close()
 
     async def aclose(self, interval: float = 0.001) -> None:
         """Awaitable version of close()"""
-        await self._task_callback.aclose(interval=interval)
-        await to_thread(self._thread_callback.close)
+        try:
+            await self._task_callback.aclose(interval=interval)
+        finally:
+            await to_thread(self._thread_callback.close)
 
     def __enter__(self) -> "ThreadTaskDoneCallback":
         return self
